@@ -138,8 +138,10 @@ func scenPeers(r *Run) {
 		// Whatever the order, nothing the library started may survive.
 		site := Pick(t, ps, []string{"listener.accept", "listener.newsess"})
 		k := t.Choose(ps, nClients)
+		s.mu.Lock()
 		s.Yield.Armed[site] = true
 		s.Yield.From[site], s.Yield.To[site] = k, k+1
+		s.mu.Unlock()
 		s.OnDrain = func() {
 			for _, p := range s.TakeParked() {
 				p := p
